@@ -221,9 +221,14 @@ class QueryParser(object):
 
             # Otherwise, ask the field to process the text into a list of
             # tokenized strings
-            texts = list(field.process_text(text, mode="query",
-                                            tokenize=tokenize,
-                                            removestops=removestops))
+            try:
+                texts = list(field.process_text(text, mode="query",
+                                                tokenize=tokenize,
+                                                removestops=removestops))
+            except Exception:
+                # The field can't analyze text (e.g. STORED has no format)
+                e = sys.exc_info()[1]
+                return query.error_query(e)
 
             # If the analyzer returned more than one token, use the field's
             # multitoken_query attribute to decide what query class, if any, to
